@@ -29,7 +29,7 @@ import tlaval  # noqa: E402
 
 LEVEL = 'model_checking'
 
-BAD_SC = ['empty', 'crash', 'signal', 'garbage', 'sigout']
+BAD_SC = ['empty', 'crash', 'signal', 'garbage', 'sigout', 'empty0']
 BAD_PY = ['empty', 'signal', 'sigout']
 
 
@@ -306,8 +306,19 @@ def tool_input_part(ck, sd, rs, rz, tier):
             setup = {'sc:bash': 'set -eo pipefail\n', 'sc:sh': 'set -e\n'}.get(v['tool'], '')
             expect[tok] = {'tool': v['tool'], 'stdin': (setup + body + '\n' + ('\n' if setup else '')) if v['tool'] != 'none' else None,
                            'vec': v}
-        scs.append({'id': sid, 'files': [{'default_shell': wf, 'jobs': [{'default_shell': job, 'runs_on': 'windows-latest' if win else '',
-                                                                          'steps': steps}]}],
+        # a decoy job BEFORE the job under test: its runner / default shell must not leak into the next job
+        dtok = 'S%dD' % sid
+        dbody = 'y = 2  # tok=%s' % dtok
+        decoy_win = not win
+        decoy_shell = 'python' if job != 'python' else 'bash'
+        decoy = {'default_shell': decoy_shell, 'runs_on': 'windows-latest' if decoy_win else '', 'steps': [{'tok': dtok, 'shell': '', 'script': dbody}]}
+        plan[dtok] = {'outcome': 'ok', 'delay_ms': 0, 'n': 0}
+        dtool = 'py' if decoy_shell == 'python' else 'sc:bash'
+        dsetup = 'set -eo pipefail\n' if dtool == 'sc:bash' else ''
+        expect[dtok] = {'tool': dtool, 'stdin': dsetup + dbody + '\n' + ('\n' if dsetup else ''),
+                        'vec': {'kind': 'shell', 'step': '', 'job': decoy_shell, 'wf': wf, 'win': decoy_win, 'tool': dtool, 'decoy': True}}
+        scs.append({'id': sid, 'files': [{'default_shell': wf, 'jobs': [decoy, {'default_shell': job, 'runs_on': 'windows-latest' if win else '',
+                                                                                'steps': steps}]}],
                     'plan': plan, 'nostart': '', 'hook_delay_us': 0, 'single': True})
     ck.cov['shell_vectors'] = len(shell_vecs)
     # sanitize: bash and python steps, 24 scripts per file
